@@ -167,6 +167,21 @@ Theorem C03_fresh_exact : forall c ts m o j r q e, safe_cfg c = true -> (0 < c_r
         0 < d /\ Z.of_nat (evens_upto (w_log (m_w m)) q) = Z.of_nat (evens_upto (w_log (m_w m)) q') + 32767 * d)).
 Proof. exact fresh_machine_exact. Qed.
 
+(* what the exception rests on, in every reachable state: the generation a reader keeps with its cached
+   record is the value of the very even store that record was accepted from - never a generation loaded
+   later (a copy filed under a newer generation would be served as current although it is not) *)
+Theorem C03_cache_filed_under_its_own_generation : forall c ts m o, safe_cfg c = true ->
+  Forall real_token ts -> m_run (m_init c) ts = (m, o) -> run_windows (m_init c) ts ->
+  forall j r, nth_error (m_rs m) j = Some r ->
+    (r_cache_gen r = 0 /\ r_cache r = repeat 0 (c_cells c)) \/
+    exists q e, ev (w_log (m_w m)) q = Some e /\ e_kind e = KEven /\ e_val e = r_cache_gen r /\
+                r_cache r = recf (c_cells c) (e_att e).
+Proof.
+  intros c ts m o Hs Hts R Hw j r Er.
+  pose proof (M3_tag _ _ (m_run_tag_win c Hs ts (m_init c) m o (MInv3_init c) Hts R Hw)) as TG.
+  rewrite Forall_forall in TG. exact (TG r (nth_error_In _ _ Er)).
+Qed.
+
 End GeneralExact.
 
 (* the same over the standard view semantics of release/acquire (Shm/MachineGenSys.v: its runs make
